@@ -233,9 +233,9 @@ def _main_wiring(tier, seed):
                 afm.ArchitectureFeatures = real
             if captured.get("arena_cache_size") is not None:
                 if captured.get("arena_cache_size") == 384 * 1024:
-                    out["known_lines"].append(
-                        "KNOWN-FINDING: property=C18 D6 vela.main: --arena-cache-size has the argparse default 393216, so the value is "
-                        "never None and always overrides arena_cache_size from the configuration file")
+                    _rp.report_bounded_finding(
+                        out, "C18", "D6", "vela.main: --arena-cache-size has the argparse default 393216, so the value is "
+                        "never None and always overrides arena_cache_size from the configuration file", dict(captured))
                 else:
                     failures.append("vela.main without --arena-cache-size passes arena_cache_size=%r" % (captured.get("arena_cache_size"),))
         finally:
